@@ -1945,6 +1945,39 @@ def hostile_programs(tier='quick'):
     add('conv', 'string-to-int', ['println("${"99999999999999999999".to_int64().is_none()} ${"-2147483649".to_int32().is_none()} ${"".to_int32().is_none()} ${"-9223372036854775808".to_int64().is_some()}");'])
     return out
 
+
+# ----------------------------------------------------------------------------------------------- batching
+def batchable(p):
+    """May this program be one member of a batch executable?  (its `main` must return unit; programs
+    taken verbatim from the repository are never batched)"""
+    return getattr(p, 'kind', '') != 'rt' and 'main-status' not in p.features and '\nfn main() {\n' in p.dora
+
+
+def batch_source(programs):
+    """One Dora compile unit holding several programs, each in its own inline module; the batch's `main`
+    runs the member named by the first command-line argument.  Linking dominates the cost of a compile, so
+    a batch costs one link per back end; every member is still a separate process run ending in its own way
+    (value, trap, fatal error, exit)."""
+    out = []
+    for p in programs:
+        out.append('mod %s {' % p.name)
+        for line in p.dora.splitlines():
+            if line == 'fn main() {':
+                line = 'pub fn main() {'
+            out.append(('    ' + line) if line else '')
+        out.append('}')
+        out.append('')
+    out.append('fn main() {')
+    out.append('    let which = std::argv(0i32);')
+    for i, p in enumerate(programs):
+        out.append('    %sif which == "%s" {' % ('' if i == 0 else '} else ', p.name))
+        out.append('        %s::main();' % p.name)
+    out.append('    } else {')
+    out.append('        std::fatal_error("no such batch member");')
+    out.append('    }')
+    out.append('}')
+    return '\n'.join(out) + '\n'
+
 if __name__ == '__main__':
     import sys
     seed = int(sys.argv[1]) if len(sys.argv) > 1 else 1
